@@ -1,6 +1,6 @@
 SPECIFICATION Spec
 CONSTANTS
- Mols <- MolsQuick
+ Mols <- MCMols
  Dev = "none"
  FixedOrder = TRUE
 INVARIANT WriterMeetsWrite
